@@ -711,6 +711,5 @@ OPEN_REWRITES = {
     'R15-4': 'Jacobian columns as [Vector6; 6] from array::from_fn assembled with from_columns: R15.1 reads the (position, rotation) pair and the two copy_from',
     'R17-2': 'source and target bases through orthonormal_basis(o, x, y) -> Option<Matrix3> and ok_or_else(..)?: R17.1/R17.2 read the two column triples',
     'R20-1': 'axis sign and offset readers match the first two items of a filtered iterator, xyz destructured by a slice pattern: R20.7 reads filter/map/len() == 1 (see also K103), the census the indexed form',
-    'R20-3': 'populate_opw_parameters over names.iter().enumerate() with a zero-based match and unreachable!(): R20.4 reads the arms of `match j + 1`',
     'R20-4': 'convert_to_map through the HashMap entry() API, to_robot through parameters()/constraints(): R20.3 and R20.2 read get/insert and the direct Constraints::new',
 }
